@@ -1,4 +1,4 @@
-import PsecModel.Lemmas.SpecEquiv5
+import PsecModel.Lemmas.SpecSelf
 /-!
 # C03 — TR-31 key blocks interoperate with an independent implementation of the specification (partial)
 
@@ -79,6 +79,19 @@ theorem accepted_is_spec_valid (c : Ciphers) (hc : c.Lawful) (kbpk : Bytes) (s :
       Spec.TR31.parseBlocks cnt (s.drop 16) = some (bl, rest) → Canon bl rest)
     (hu : unwrapFn c kbpk s = .ok (h, key)) : Spec.TR31.unwrap c kbpk s = some (h, key) :=
   psec_to_spec c hc kbpk s h key hcanon hu
+
+/-- **the specification is self-consistent**: its verifier opens whatever its builder emits (every encoding freedom), to the same key
+and header — so the two specification-side functions the theorems above are stated against are not vacuous or contradictory -/
+theorem spec_roundtrip (c : Ciphers) (hc : c.Lawful) (kbpk : Bytes) (h : Header) (forms : List Nat) (padMode : Nat)
+    (key pad : Bytes) (lower : Bool) (hw : h.WF) (hnp : NoPadIds h.blocks) (hf : FormsOK h.blocks forms)
+    (v : Nat) (hv : h.versionId = [v])
+    (hkp : (2 + key.length + pad.length) % Spec.TR31.bsOf v = 0)
+    (hps : 4 + Spec.TR31.padSize (Spec.TR31.bsOf v) (Spec.TR31.encodeBlocks h.blocks forms).length padMode ≤ 255)
+    (hcnt : h.blocks.length + (Spec.TR31.padBlock (Spec.TR31.bsOf v) (Spec.TR31.encodeBlocks h.blocks forms).length padMode).2 ≤ 99)
+    (hlen : (Spec.TR31.build c kbpk h forms padMode key pad lower).length ≤ 9999)
+    (hk : Spec.TR31.kbpkOk v kbpk = true) :
+    Spec.TR31.unwrap c kbpk (Spec.TR31.build c kbpk h forms padMode key pad lower) = some (h, key) :=
+  Psec.Tr31.spec_roundtrip c hc kbpk h forms padMode key pad lower hw hnp hf v hv hkp hps hcnt hlen hk
 
 /-! Non-vacuity examples for both theorems and the SP 800-38B CMAC examples are kernel-evaluated in `Props/C03Examples.lean`
 (built by `PsecModel.Tests` in the thorough tier: they cost ≈ 45 s of kernel evaluation). -/
